@@ -71,7 +71,9 @@ theorem arm_inj_valid {t : Tracker} {tx : Tx} {pre : Status} {past future : List
       · cases h
       · simp only at h
         split at h
-        · simp only [Except.ok.injEq] at h; subst h; simp
+        · split at h
+          · cases h
+          · simp only [Except.ok.injEq] at h; subst h; simp
         · split at h
           · split at h
             · cases h
@@ -142,7 +144,9 @@ theorem arm_err {t : Tracker} {U : List Aff} (hw : TrackerWFOn U t) {tx : Tx} {p
       · simp only [Except.error.injEq] at h; exact ⟨_, h.symm, rfl⟩
       · simp only at h
         split at h
-        · cases h
+        · split at h
+          · simp only [Except.error.injEq] at h; exact ⟨_, h.symm, rfl⟩
+          · cases h
         · split at h
           · split at h
             · rename_i f' hd
